@@ -64,6 +64,10 @@ def entry_points(tmp):
     return {
         'parse': lambda d, v: stix2.parse(d, version=v),
         'parse(text)': lambda d, v: stix2.parse(json.dumps(d), version=v),
+        # an already built object as input is converted back to its dictionary and parsed under the requested version like any other input
+        'parse(object)': lambda d, v: stix2.parse(stix2.parse(dict(d)), version=v),
+        'Environment.parse(object)': lambda d, v: stix2.Environment(store=MemoryStore()).parse(stix2.parse(dict(d)), version=v),
+        'Environment.parse(dict)': lambda d, v: stix2.Environment(store=MemoryStore()).parse(dict(d), version=v),
         'MemoryStore.add': store_add,
         'MemoryStore.add(list)': lambda d, v: (lambda ms: (ms.add([d], version=v), ms.get(d['id']))[1])(MemoryStore(allow_custom=False)),
         'MemoryStore(stix_data)': lambda d, v: MemoryStore(stix_data=[d], allow_custom=False, version=v).get(d['id']),
@@ -88,7 +92,7 @@ def run(chk):
                        'filesystem._check_object_from_file are symbolically executed: dict_to_stix2 looks the class up under the requested version and under the '
                        'detected one only when none was requested, passes allow_custom/interoperability on unchanged; the store functions parse '
                        'everything under their own version with interoperability False; detection returns V for every shape the library emits for V.  '
-                       'B: 14 entry points x 4 dictionaries x {None, 2.0, 2.1}: class returned equals that of a direct parse; identifiers only the relaxed mode admits '
+                       'B: 17 entry points (dictionary, text and already-built object inputs) x 4 dictionaries x {None, 2.0, 2.1}: class returned equals that of a direct parse; identifiers only the relaxed mode admits '
                        'are refused wherever a version is named.')
     chk.assume('sort of an actual argument is derived from the caller\'s own role-named parameters, literals and self.<role>; other expressions are recorded as not decided',
                'taxii sources/sinks are covered by the call-site obligations only (no TAXII client in the sandbox)')
@@ -131,7 +135,7 @@ def run(chk):
                 w = outcome(lambda: stix2.parse(dict(bad), version=v)); g = outcome(lambda: eps[en](dict(bad), v))
                 if w[0] == 'err' and g[0] != 'err':
                     return (f'strict#{en}', f'{en}({dn} with id {bad["id"]}, version={v}) accepted; a direct parse refuses it ({w[1]})', {'entry': en, 'dict': bad, 'version': v})
-        chk.bounded('entry points x dictionaries x versions', list(cases()), check, classify=lambda c: c, bound='14 entry points x 4 dictionaries x 3 version settings, plus 2 invalid-identifier variants each')
+        chk.bounded('entry points x dictionaries x versions', list(cases()), check, classify=lambda c: c, bound=f'{len(eps)} entry points x 4 dictionaries x 3 version settings, plus 2 invalid-identifier variants each')
         # library output of version V is recognised as V without naming a version
         def lib_out():
             for ver in ('2.0', '2.1'):
